@@ -4,9 +4,16 @@
      keys    K = uint8  : 2 bytes (high nibble, low nibble), 0xFF is not encodable,
                           decoding needs exactly 2 bytes, both < 16.
    A case is an initial raw store, a fault script, a history and what the real code did at every step
-   (result class + value, callback arguments, raw bytes afterwards, number of codec/store calls so far). *)
+   (result class + value, callback arguments, raw bytes afterwards, number of codec/store calls so far).
+   [shapes]: how the k-th error handed to the code under test was presented (bare / wrapped / inside an error tree:
+   ErrTree.shape_apply).  The model works on classes, and the class of an error does not depend on its shape
+   (ErrTree.abs_get_shape, abs_cb_shape, classify_shape), so the expected observations are computed without
+   looking at the shapes: an implementation whose behaviour depends on the shape disagrees with the model.
+   CErr / CShape tie ErrTree.contains / first_tag (= what the theorems call errors.Is / errors.As) to ierrors.Is / As:
+   an error tree built through the ierrors constructors, what ierrors.Is answered for each of the 12 leaves and which
+   leaf ierrors.As found. *)
 From Coq Require Import NArith List Bool.
-From Verif.C06_Typed Require Import Model StoreModel.
+From Verif.C06_Typed Require Import Model StoreModel ErrTree.
 Import ListNotations.
 Open Scope N_scope.
 
@@ -43,8 +50,10 @@ Record tobs := mkTObs { o_res : res N; o_cb : option (N * bool); o_raw : option 
 Record sobs := mkSObs { so_res : sres N N; so_store : store; so_pos : nat }.
 
 Inductive case :=
-| CTV (init : option bytes) (faults : list bool) (h : list top) (obs : list tobs)
-| CTS (init : store) (faults : list bool) (h : list (sop N N)) (obs : list sobs).
+| CTV (init : option bytes) (faults : list bool) (shapes : list nat) (h : list top) (obs : list tobs)
+| CTS (init : store) (faults : list bool) (shapes : list nat) (h : list (sop N N)) (obs : list sobs)
+| CErr (t : etree) (is_obs : list bool) (as_obs : option nat)
+| CShape (sh leaf : nat) (is_obs : list bool) (as_obs : option nat).
 
 (* ---- equality on observations ---- *)
 Definition ecl_eqb (a b : eclass) : bool :=
@@ -108,10 +117,16 @@ Fixpoint agree_ts (sc : script) (s : store) (p : nat) (h : list (sop N N)) (obs 
   | _, _ => false
   end.
 
+(* the 12 leaves of the harness: ierrors.Is(tree, leaf i) for i = 0..11, ierrors.As(tree, *tagErr) *)
+Definition agree_err (t : etree) (is_obs : list bool) (as_obs : option nat) : bool :=
+  list_eqb Bool.eqb (map (fun i => contains i t) (seq 0 12)) is_obs && opt_eqb Nat.eqb (first_tag t) as_obs.
+
 Definition agree (c : case) : bool :=
   match c with
-  | CTV init f h obs => agree_tv (script_of f) (fresh init) 0 h obs
-  | CTS init f h obs => agree_ts (script_of f) init 0 h obs
+  | CTV init f _ h obs => agree_tv (script_of f) (fresh init) 0 h obs
+  | CTS init f _ h obs => agree_ts (script_of f) init 0 h obs
+  | CErr t io ao => agree_err t io ao
+  | CShape sh l io ao => agree_err (shape_apply sh (ELeaf l)) io ao
   end.
 
 Fixpoint mismatches_from (i : nat) (cs : list case) : list nat :=
